@@ -92,14 +92,18 @@ def run_path(case, prefix, stats, probe=False):
     return c, out
 
 
-def explore(case, roots=((),), deadline=None):
+def explore(case, roots=((),), deadline=None, budget=None):
     stats = Stats()
     res = dict(case=case.name, paths=0, aborted=0, validated=0, violations=[],
                errors=[], samples=[], labels=set())
     stack = [list(r) for r in roots]
     seen_viol = set()
+    done = 0
     while stack:
+        if budget is not None and done >= budget:
+            break
         prefix = stack.pop()
+        done += 1
         if res['paths'] >= case.max_paths:
             res['errors'].append(f'{case.name}: path bound {case.max_paths} exceeded')
             break
@@ -158,6 +162,7 @@ def explore(case, roots=((),), deadline=None):
             res['errors'].append(f'{case.name}: {e}')
         except PathAbort:
             res['aborted'] += 1
+    res['remaining'] = stack if (budget is not None and stack) else []
     res['decisions'] = stats.decisions
     res['queries'] = stats.queries
     res['solver_time'] = stats.solver_time
@@ -225,20 +230,43 @@ def run_isolated(fn, attempts=3):
     return [], [f'file-based checks could not be completed: {last[:500]}'], {}
 
 
+BUDGET = 150      # paths explored per task of a splittable case before the rest of its stack is handed back
+
+
+def _requeue(r, pending, deadline, cases, per_case_paths, errors):
+    """work sharing: the unexplored prefixes of a task come back and are spread over the pool"""
+    idx = r.get('idx')
+    if idx is None:
+        return
+    per_case_paths[idx] += r['paths']
+    rem = r.get('remaining') or []
+    if not rem:
+        return
+    if per_case_paths[idx] > cases[idx].max_paths:
+        errors.append(f'{cases[idx].name}: path bound {cases[idx].max_paths} exceeded')
+        return
+    k = max(1, min(8, len(rem)))
+    for j in range(k):
+        chunk = rem[j::k]
+        if chunk:
+            pending.append((idx, chunk, deadline, BUDGET))
+
+
 _CASES = []
 
 
 def _work(task):
-    idx, roots, deadline = task
+    idx, roots, deadline, budget = task
     case = _CASES[idx]
     t = time.time()
     try:
-        r = explore(case, roots, deadline)
+        r = explore(case, roots, deadline, budget)
     except BaseException as e:  # never lose a worker silently
         r = dict(case=case.name, paths=0, aborted=0, validated=0, violations=[],
                  errors=[f'{case.name}: worker crashed: {type(e).__name__}: {e}\n{traceback.format_exc(limit=8)}'],
-                 samples=[], labels=[], decisions=0, queries=0, solver_time=0.0, obligations=0)
+                 samples=[], labels=[], decisions=0, queries=0, solver_time=0.0, obligations=0, remaining=[])
     r['wall'] = time.time() - t
+    r['idx'] = idx
     return r
 
 
@@ -286,27 +314,43 @@ def main_run(prop, tier, cases, *, functions=(), bounds=None, stubs=(), assumpti
     cases = list(cases)
     _CASES = cases
     deadline = (t0 + time_budget) if time_budget else None
-    tasks = []
     pre_errors = []
-    for i, c in enumerate(cases):
-        if c.split:
-            try:
-                for r in split_roots(c, c.split):
-                    tasks.append((i, [r], deadline))
-            except HarnessError as e:
-                pre_errors.append(f'{c.name}: {e} (while splitting the decision tree)')
-        else:
-            tasks.append((i, [[]], deadline))
-    procs = procs or min(16, max(1, len(tasks)))
+    import collections
+    import random
+    pending = collections.deque((i, [[]], deadline, (BUDGET if c.split else None)) for i, c in enumerate(cases))
+    if seed:
+        tmp = list(pending)
+        random.Random(seed).shuffle(tmp)      # the seed only perturbs the order in which cases are explored
+        pending = collections.deque(tmp)
+    procs = procs or min(16, max(1, len(pending)))
     results = []
-    if tasks:
+    per_case_paths = collections.Counter()
+    if pending:
         if procs == 1:
-            results = [_work(t) for t in tasks]
+            while pending:
+                r = _work(pending.popleft())
+                results.append(r)
+                _requeue(r, pending, deadline, cases, per_case_paths, pre_errors)
         else:
             mp = multiprocessing.get_context('fork')
             with mp.Pool(procs) as pool:
-                for r in pool.imap_unordered(_work, tasks, chunksize=1):
-                    results.append(r)
+                inflight = []
+                while pending or inflight:
+                    while pending and len(inflight) < procs * 2:
+                        inflight.append(pool.apply_async(_work, (pending.popleft(),)))
+                    still = []
+                    progressed = False
+                    for a in inflight:
+                        if a.ready():
+                            r = a.get()
+                            results.append(r)
+                            _requeue(r, pending, deadline, cases, per_case_paths, pre_errors)
+                            progressed = True
+                        else:
+                            still.append(a)
+                    inflight = still
+                    if not progressed:
+                        time.sleep(0.01)
 
     # checks that touch netCDF/HDF5 files or threads run only after the worker pool has been forked and joined
     if late_checks is not None:
